@@ -141,6 +141,8 @@ def run(tier):
     res.need("T5b.null-before-use", 75)
     alloc.release_on_every_exit(prog, res, "T5c.release-on-every-exit", fns, REL_EXC, TRANSFER)
     res.need("T5c.release-on-every-exit", 50)
+    alloc.no_dangling_owner(prog, res, "T5g.no-dangling-owner", [f for f in prog.all_functions() if f.file.startswith("lib/")])
+    res.need("T5g.no-dangling-owner", 25)
     alloc.destructor_releases_fields(prog, res, "T5d.field-destructor", DESTRUCTORS, ALLOC_LIKE)
     res.need("T5d.field-destructor", 16)
     alloc.destructor_null_tolerant(prog, res, "T5f.destructor-null-tolerant", NULL_TOLERANT)
